@@ -65,3 +65,10 @@ Lemma splitter_push_item_shape_src : Splitter_push_item_shape = true.
 Proof. reflexivity. Qed.
 Lemma combiner_push_item_shape_src : Combiner_push_item_shape = true.
 Proof. reflexivity. Qed.
+
+(* Node.get_delay and Edge.get_delay advance the delay source exactly once per call (a generator by one next(), a callable by one
+   call, a constant not at all): the model's [draw_delay] moves the node's delay stream by one position per draw *)
+Lemma node_get_delay_draws_src : forall k, Node_get_delay_draws k = (match k with DConst => 0 | _ => 1 end)%nat.
+Proof. intros [| |]; reflexivity. Qed.
+Lemma edge_get_delay_draws_src : forall k, Edge_get_delay_draws k = (match k with DConst => 0 | _ => 1 end)%nat.
+Proof. intros [| |]; reflexivity. Qed.
